@@ -208,8 +208,28 @@ func replay(path string) int {
 	c := core.NewCtx(rp.Property, "quick")
 	c.Findings = nil // a replay reports the raw verdict
 	if err := ch.Replay(c, rp); err != nil {
-		fmt.Fprintln(os.Stderr, err)
-		return 2
+		// a history-shaped case is not re-executable from its text: re-run the run that found it (same seed and tier,
+		// known findings off) and see whether the signature fires again
+		fmt.Fprintf(os.Stderr, "%v\nre-running %s %s with seed %d instead\n", err, rp.Property, rp.Tier, rp.Seed)
+		os.Setenv("VERIF_SEED", fmt.Sprint(rp.Seed))
+		os.Setenv("VERIF_EVIDENCE_OUT", os.DevNull)
+		tier := rp.Tier
+		if tier == "" {
+			tier = "quick"
+		}
+		c2 := core.NewCtx(rp.Property, tier)
+		c2.Findings = nil
+		c2.Quiet()
+		if err := ch.Run(c2); err != nil {
+			fmt.Fprintln(os.Stderr, err)
+			return 2
+		}
+		if c2.Fired(rp.Signature) {
+			fmt.Printf("replay reproduces %s with seed %d\n", rp.Signature, rp.Seed)
+			return 1
+		}
+		fmt.Printf("replay passes on the current tree: %s no longer fires with seed %d (%s)\n", rp.Signature, rp.Seed, rp.Property)
+		return 0
 	}
 	if c.Violations() > 0 {
 		return 1
